@@ -1,3 +1,6 @@
+import os
+
+from . import common as C
 from .runner import Spec
 
 
@@ -13,7 +16,10 @@ class C14(Spec):
     rule = ("one case = one Search call on synthetic predicates (mono: sorted list given by boundary b and run of "
             "equals e; bits: arbitrary predicate bitmasks); compared: result and full probe log. distinct by script "
             "line; non-trivial = count > 0 and at least one probe")
-    trusted_base = ["Go int arithmetic of `int(uint(i+j)>>1)` related to Int division by lemma C14_mid_bitvec"]
+    trusted_base = ["Go int arithmetic of `int(uint(i+j)>>1)` related to Int division by lemma C14_mid_bitvec",
+                    "translator tie: tools/srcfacts (go/ast + go/types -> MiniGo term, regenerated every run) and the MiniGo "
+                    "interpreter's 64-bit semantics (Got/Model/MiniGo.lean); the interpreter run on the generated term is "
+                    "compared with the real code on every case of the correspondence (driver mode `ast`)"]
     assumptions = ["less/equal are pure functions of the index", "count <= 2^62 in sampled cases"]
 
     def oracle(self, script, impl):
@@ -69,6 +75,42 @@ class C14(Spec):
             if r != exp:
                 return ("wrong-result", "Search returned %d, first match / ^insertion point is %d" % (r, exp))
         return None
+
+    def extra(self, ctx):
+        """second correspondence: the MiniGo interpreter on the term regenerated from /repo's source (driver mode `ast`)
+        must print what the real code printed, line by line (validates translator + interpreter semantics; the Lean
+        theorem C14_translated_source_refines_model ties that term to the model)."""
+        ex = ctx.get("ex")
+        cov = ctx["coverage"]
+        note = ""
+        gen = os.path.join(C.LEAN, "Got", "Generated", "AstSortx.lean")
+        if os.path.exists(gen):
+            for line in open(gen):
+                if line.startswith("def searchNote"):
+                    note = line.split(":=", 1)[1].strip().strip('"')
+        cov["translation_note"] = note
+        if note != "ok":
+            ctx["broken"].append({"layer": "L2", "what": "translator: sortx.Search is no longer inside the MiniGo fragment (%s)" % note})
+        if not ex or "build_error" in ex or not ex.get("script") or not os.path.exists(C.driver_path(self.driver)):
+            return
+        d = os.path.join(C.OUT, "run", "C14-ast-%d" % os.getpid())
+        C.fresh_dir(d)
+        try:
+            sp, op = os.path.join(d, "script.txt"), os.path.join(d, "ast.txt")
+            open(sp, "w").write("".join(x + "\n" for x in ex["script"]))
+            rc, err = C.run_driver(self.driver, ["ast"], sp, op)
+            out = open(op, errors="replace").read().split("\n")[:-1]
+            bad = [(i, s, a, b) for i, (s, a, b) in enumerate(zip(ex["script"], ex["impl"], out)) if a != b]
+            cov["ast_interpreter_lines"] = len(out)
+            cov["ast_interpreter_mismatches"] = len(bad)
+            if rc != 0 or len(out) != len(ex["script"]):
+                ctx["broken"].append({"layer": "L2", "what": "driver (ast mode) failed rc=%s, %d of %d lines: %s" % (rc, len(out), len(ex["script"]), (err or "")[-300:])})
+            elif bad:
+                ctx["broken"].append({"layer": "L2", "what": "translated source (MiniGo interpreter) and implementation differ on %d of %d lines" % (len(bad), len(out)),
+                                      "first": [{"script": s, "impl": a[:200], "ast": b[:200]} for _, s, a, b in bad[:5]]})
+        finally:
+            import shutil
+            shutil.rmtree(d, ignore_errors=True)
 
     def nontrivial(self, script, impl):
         return int(script.split()[1]) > 0 and len(impl.split()) > 3
